@@ -1,5 +1,171 @@
-/- C07: statements are being proved (see git history); placeholder keeps the module buildable. -/
-import GoSnaps.Clean
+/-
+C07 — Clean never discards a snapshot that was matched in this run.
+
+`occurrences` turns the cleanup registry (test name ↦ number of `Match*` calls, summed over the
+`-count` executions) into the set of protected ids; `examineSnaps` keeps every entry whose id is
+in that set.  Statements only; proofs call `Lemmas/Clean.lean` and `Props/C10.lean`.
+-/
+import GoSnaps.Lemmas.Clean
+import GoSnaps.Props.C10
 namespace GoSnaps.C07
-theorem isNumber_nil : isNumber [] = true := by decide
+
+open GoSnaps
+
+/-! ## 1. every occurrence that ran is protected -/
+
+/-- general form, integer division made explicit: every ordinal `1 ≤ k ≤ counter / count` of a
+    registered name is formatted and protected -/
+theorem occurrences_cover_div (tests : List (Text × Nat)) (count : Nat)
+    (fmt : Text → Nat → Option Text) (r : List Text) (N : Text) (counter : Nat)
+    (hmem : (N, counter) ∈ tests) (h : occurrences tests count fmt = some r)
+    (k : Nat) (hk1 : 1 ≤ k) (hk2 : k ≤ counter / count) :
+    ∃ t, fmt N k = some t ∧ t ∈ r := by
+  rw [occurrences_eq] at h
+  obtain ⟨tail, rfl, _, hc⟩ := occFold_spec tests count fmt [] r h
+  obtain ⟨t, ht, hm⟩ := hc (N, counter) hmem k ((mem_occKs _ _).mpr (Or.inr ⟨hk1, hk2⟩))
+  exact ⟨t, ht, by simpa using hm⟩
+
+/-- the code always inserts `fmt id (counter / count)`, even when that is 0 or 1 -/
+theorem occurrences_cover_last (tests : List (Text × Nat)) (count : Nat)
+    (fmt : Text → Nat → Option Text) (r : List Text) (N : Text) (counter : Nat)
+    (hmem : (N, counter) ∈ tests) (h : occurrences tests count fmt = some r) :
+    ∃ t, fmt N (counter / count) = some t ∧ t ∈ r := by
+  rw [occurrences_eq] at h
+  obtain ⟨tail, rfl, _, hc⟩ := occFold_spec tests count fmt [] r h
+  obtain ⟨t, ht, hm⟩ := hc (N, counter) hmem _ ((mem_occKs _ _).mpr (Or.inl rfl))
+  exact ⟨t, ht, by simpa using hm⟩
+
+/-- **`occurrences_cover`**: a test `N` executed `c = -count ≥ 1` times with `n` calls each has
+cleanup counter `c * n`; then `"N - k"` is protected for every `1 ≤ k ≤ n` (`n = 1`: just
+`"N - 1"`; `n = 0`: vacuous, and `"N - 0"` is inserted — `occurrences_cover_last`). -/
+theorem occurrences_cover (tests : List (Text × Nat)) (c n : Nat) (hc : 1 ≤ c) (r : List Text)
+    (N : Text) (hmem : (N, c * n) ∈ tests) (h : occurrences tests c snapshotOccFmt = some r)
+    (k : Nat) (hk1 : 1 ≤ k) (hk2 : k ≤ n) :
+    N ++ [32, 45, 32] ++ natToText k ∈ r := by
+  have hdiv : c * n / c = n := Nat.mul_div_cancel_left n (by omega)
+  obtain ⟨t, ht, hm⟩ := occurrences_cover_div tests c snapshotOccFmt r N (c * n) hmem h k hk1
+    (by omega)
+  rw [snapshotOccFmt_eq] at ht
+  cases ht; exact hm
+
+/-- the `snapshotOccFmt` registry never fails to format -/
+theorem occurrences_total (tests : List (Text × Nat)) (count : Nat) :
+    ∃ r, occurrences tests count snapshotOccFmt = some r :=
+  occurrences_snapshot_total tests count
+
+/-- **counter not a multiple of count**: the remainder is ignored (integer division) — with
+counter `c * n + rem`, `rem < c`, exactly the ordinals of `c * n` are protected, so an occurrence
+`n + 1` that ran in only `rem` of the `c` executions is not.  An off-by-one in the division or in
+the loop bound changes this equation. -/
+theorem occurrences_remainder_ignored (N : Text) (c n rem : Nat) (hrem : rem < c)
+    (fmt : Text → Nat → Option Text) (rest : List (Text × Nat)) :
+    occurrences ((N, c * n + rem) :: rest) c fmt = occurrences ((N, c * n) :: rest) c fmt := by
+  have h1 : (c * n + rem) / c = n := by
+    rw [Nat.mul_add_div (by omega), Nat.div_eq_of_lt hrem]; rfl
+  have h2 : c * n / c = n := Nat.mul_div_cancel_left n (by omega)
+  simp only [occurrences_eq, List.foldl_cons, occStep, h1, h2]
+
+/-- `TestA` with 5 calls over `-count=2`: ordinals 1, 2 (and 2 again) — not 3 -/
+example : occurrences [([84, 101, 115, 116, 65], 5)] 2 snapshotOccFmt =
+    some [[84, 101, 115, 116, 65, 32, 45, 32, 49], [84, 101, 115, 116, 65, 32, 45, 32, 50],
+      [84, 101, 115, 116, 65, 32, 45, 32, 50]] := by decide
+
+/-- one call (`n = 1`) and no call (`n = 0`, e.g. only skipped executions) -/
+example : occurrences [([84, 101, 115, 116, 65], 3), ([84, 101, 115, 116, 66], 0)] 3 snapshotOccFmt =
+    some [[84, 101, 115, 116, 65, 32, 45, 32, 49], [84, 101, 115, 116, 66, 32, 45, 32, 48]] := by decide
+
+/-! ## 2. nothing spurious is protected -/
+
+/-- every protected id is `fmt id k` for a registered `id` and an ordinal `k ≤ counter / count`
+    (`k ≥ 1` unless the quotient is 0) -/
+theorem occurrences_sound (tests : List (Text × Nat)) (count : Nat)
+    (fmt : Text → Nat → Option Text) (r : List Text) (h : occurrences tests count fmt = some r)
+    (t : Text) (ht : t ∈ r) :
+    ∃ id counter k, (id, counter) ∈ tests ∧ k ≤ counter / count ∧
+      (1 ≤ k ∨ counter / count = 0) ∧ fmt id k = some t := by
+  rw [occurrences_eq] at h
+  obtain ⟨tail, rfl, hs, _⟩ := occFold_spec tests count fmt [] r h
+  obtain ⟨x, hx, k, hk, hf⟩ := hs t (by simpa using ht)
+  refine ⟨x.1, x.2, k, hx, ?_, ?_, hf⟩
+  · rcases (mem_occKs _ _).mp hk with h | h <;> omega
+  · rcases (mem_occKs _ _).mp hk with h | h <;> omega
+
+/-! ## 3. a registered entry is kept, with its body, through every rewrite -/
+
+/-- in the scan, an entry whose id is registered is never reported obsolete and is stored with
+    its body -/
+theorem registered_kept (o : Oracles) (registered skipped : List Text) (runOnly : Text)
+    (update : Bool) (es : List Entry) (hf : CleanFile es)
+    (hcls : ∀ e ∈ es, Classified o registered skipped runOnly (tidOf e))
+    (e : Entry) (he : e ∈ es) (hreg : tidOf e ∈ registered) :
+    let st := exScan o registered skipped runOnly update (scan (render es)) .outer {}
+    tidOf e ∉ st.obsolete ∧ testsGet st.tests (tidOf e) = some (e.body ++ [nl]) := by
+  have hk : keptId o registered skipped runOnly (tidOf e) = true := by simp [keptId, hreg]
+  rw [C10.exScan_render o registered skipped runOnly update es hf hcls]
+  refine ⟨?_, ?_⟩
+  · simp only [List.mem_map, List.mem_filter, not_exists, not_and, and_imp]
+    intro x hx hnk hxe
+    rw [hxe, hk] at hnk; cases hnk
+  · show testsGet ((es.filter _).map entryPair) (tidOf e) = _
+    rw [testsGet_map_entryPair, find?_filter_tid es _ e hf.distinct he]
+    simp [hk]
+
+/-- **a registered entry survives the file step**, whatever `update` and `sort` are: it is not
+reported, and afterwards the file is again a rendered entry list that contains the very same
+entry (same header, same body) -/
+theorem registered_survives (o : Oracles) (fs : FS) (cleanup : List (RegKey × Nat))
+    (skipped : List Text) (p runOnly : Text) (count : Nat) (update sort : Bool)
+    (registered : List Text)
+    (es : List Entry) (hf : CleanFile es) (hread : fsRead fs p = some (render es))
+    (hreg : registeredFor cleanup p count = some registered)
+    (hcls : ∀ e ∈ es, Classified o registered skipped runOnly (tidOf e))
+    (obs : List Text) (fs' : FS) (w : List Text)
+    (hfirst : examineSnaps o fs cleanup skipped [p] runOnly count update sort = .ok obs fs' w)
+    (e : Entry) (he : e ∈ es) (hin : tidOf e ∈ registered) :
+    tidOf e ∉ obs ∧ ∃ es', fsRead fs' p = some (render es') ∧ e ∈ es' := by
+  have hk : keptId o registered skipped runOnly (tidOf e) = true := by simp [keptId, hin]
+  obtain ⟨hobs, es', _, hr, hcase⟩ := examineSnaps_single_ok o registered skipped runOnly fs cleanup
+    p count update sort es hf hread hreg hcls obs fs' w hfirst
+  refine ⟨?_, es', hr, ?_⟩
+  · rw [hobs]
+    simp only [List.mem_map, List.mem_filter, not_exists, not_and, and_imp]
+    intro x hx hnk hxe
+    rw [hxe, hk] at hnk; cases hnk
+  · rcases hcase with ⟨_, _, rfl⟩ | ⟨_, _, hperm⟩
+    · exact he
+    · exact hperm.mem_iff.mpr (List.mem_filter.mpr ⟨he, by simp [hk]⟩)
+
+/-- **End to end.**  Test `N` made `n` calls in each of the `c = -count ≥ 1` executions against
+file `p` (cleanup counter `c * n`).  Then the entry `[N - k]`, `1 ≤ k ≤ n`, is not reported and
+is still in the file, with the same body, after the file step — in every mode. -/
+theorem matched_never_discarded (o : Oracles) (fs : FS) (cleanup : List (RegKey × Nat))
+    (skipped : List Text) (p runOnly : Text) (c n : Nat) (hc : 1 ≤ c) (update sort : Bool)
+    (es : List Entry) (hf : CleanFile es) (hread : fsRead fs p = some (render es))
+    (hcls : ∀ registered, registeredFor cleanup p c = some registered →
+      ∀ e ∈ es, Classified o registered skipped runOnly (tidOf e))
+    (N : Text) (hN : ((p, N), c * n) ∈ cleanup)
+    (obs : List Text) (fs' : FS) (w : List Text)
+    (hfirst : examineSnaps o fs cleanup skipped [p] runOnly c update sort = .ok obs fs' w)
+    (e : Entry) (he : e ∈ es) (k : Nat) (hk1 : 1 ≤ k) (hk2 : k ≤ n)
+    (hid : tidOf e = N ++ [32, 45, 32] ++ natToText k) :
+    tidOf e ∉ obs ∧ ∃ es', fsRead fs' p = some (render es') ∧ e ∈ es' := by
+  obtain ⟨registered, hreg⟩ := occurrences_snapshot_total
+    ((cleanup.filter (·.1.1 = p)).map (fun (k, n) => (k.2, n))) c
+  have hmem : (N, c * n) ∈ (cleanup.filter (·.1.1 = p)).map (fun (k, n) => (k.2, n)) :=
+    List.mem_map.mpr ⟨((p, N), c * n), List.mem_filter.mpr ⟨hN, by simp⟩, rfl⟩
+  have hin : tidOf e ∈ registered := by
+    rw [hid]; exact occurrences_cover _ c n hc registered N hmem hreg k hk1 hk2
+  exact registered_survives o fs cleanup skipped p runOnly c update sort registered es hf hread
+    hreg (hcls registered hreg) obs fs' w hfirst e he hin
+
+/-- concrete: `TestA` ran twice (`-count=2`) with two calls each (counter 4); the file holds
+    `[TestA - 2]`, a stale `[TestC - 1]` and `[TestA - 1]`; clean + sort keeps both `TestA` entries -/
+example :
+    let e1 : Entry := ⟨[91, 84, 101, 115, 116, 65, 32, 45, 32, 50, 93], [120]⟩
+    let e2 : Entry := ⟨[91, 84, 101, 115, 116, 67, 32, 45, 32, 49, 93], [121]⟩
+    let e3 : Entry := ⟨[91, 84, 101, 115, 116, 65, 32, 45, 32, 49, 93], [122, 10, 122]⟩
+    let p : Text := [47, 115, 47, 97, 46, 115, 110, 97, 112]
+    examineSnaps {} [(p, render [e1, e2, e3])] [((p, [84, 101, 115, 116, 65]), 4)] [] [p] [] 2 true true =
+      .ok [[84, 101, 115, 116, 67, 32, 45, 32, 49]] [(p, render [e3, e1])] [p] := by decide
+
 end GoSnaps.C07
